@@ -127,9 +127,24 @@ def check(ctx: Ctx) -> str:
     ctx.check(ok, "compile_rules:order", "lexer:compile_rules", "sorted longest first", "compile_rules must return sorted(rules, reverse=True) with the delimiter length as the first tuple component", cr.loc())
     tuples = [n for n in ast.walk(cr.node) if isinstance(n, ast.Tuple) and len(n.elts) == 3 and isinstance(n.elts[0], ast.Call) and astq.callee(n.elts[0]) == "len"]
     ctx.floor("rule tuples in compile_rules", len(tuples), 5)
+    def _res(e: ast.AST) -> ast.AST:
+        # follow a local temporary to its (last preceding) definition
+        if isinstance(e, ast.Name):
+            defs = [a for a in ast.walk(cr.node) if isinstance(a, ast.Assign) and len(a.targets) == 1 and isinstance(a.targets[0], ast.Name) and a.targets[0].id == e.id and a.lineno <= e.lineno]
+            if defs:
+                return max(defs, key=lambda a: a.lineno).value
+        return e
+
     for tpl in tuples:
         lenarg = ast.unparse(tpl.elts[0].args[0])  # type: ignore[attr-defined]
         ctx.check(lenarg in ast.unparse(tpl.elts[2]), f"compile_rules:{lenarg}", "lexer:compile_rules", f"length of {lenarg}", f"the sort length is taken from {lenarg} but the pattern is built from another string", cr.loc(tpl))
+        # one measure for all rules: the length of the delimiter as it is written in a template
+        # (environment.<x>_string / _prefix), not of its regex-escaped form - mixed measures let
+        # '#' (escaped '\#', 2) tie with or beat the longer '#*'
+        measured = _res(tpl.elts[0].args[0])  # type: ignore[attr-defined]
+        raw = isinstance(measured, ast.Attribute) and ast.unparse(measured.value) == "environment"
+        ctx.check(raw, f"compile_rules:measure:{ast.unparse(tpl.elts[1])}", "lexer:compile_rules", f"{ast.unparse(tpl.elts[1])} sorted by len({ast.unparse(measured)[:40]})",
+                  f"the rule {ast.unparse(tpl.elts[1])} is ordered by len({ast.unparse(measured)[:60]}) instead of the length of the delimiter itself: escaping lengthens delimiters with regex-special characters, so a shorter prefix ('#') can sort before a longer delimiter that starts with it ('#*') and the same template lexes differently from an equivalent configuration", cr.loc(tpl))
     # the lexer sees the same order in both model configurations
     for cfg in configs()[:2]:
         lm = LexModel(repo, dict(cfg, __len__={"block_start_string": 2, "variable_start_string": 3, "comment_start_string": 2}))
